@@ -70,7 +70,8 @@ type ecdheKeyAgreementGM struct {
 
 func (ka *ecdheKeyAgreementGM) generateServerKeyExchange(config *Config, signCert, cipherCert *Certificate,
 	clientHello *clientHelloMsg, hello *serverHelloMsg) (*serverKeyExchangeMsg, error) {
-	panic("")
+	// ECDHE_SM2 的服务端密钥交换尚未实现，返回错误使握手失败，而不是让进程崩溃
+	return nil, errors.New("tls: ECDHE_SM2 key agreement is not implemented on the server side")
 	//	preferredCurves := config.curvePreferences()
 	//
 	//NextCandidate:
@@ -169,7 +170,7 @@ func (ka *ecdheKeyAgreementGM) generateServerKeyExchange(config *Config, signCer
 }
 
 func (ka *ecdheKeyAgreementGM) processClientKeyExchange(config *Config, cert *Certificate, ckx *clientKeyExchangeMsg, version uint16) ([]byte, error) {
-	panic("")
+	return nil, errors.New("tls: ECDHE_SM2 key agreement is not implemented on the server side")
 	//	if len(ckx.ciphertext) == 0 || int(ckx.ciphertext[0]) != len(ckx.ciphertext)-1 {
 	//		return nil, errClientKeyExchange
 	//	}
